@@ -27,10 +27,12 @@ BATCH = 15
 def generate(rng, tier, seed):
     from . import gen_coll
     gen_coll.WINDOW_CLEARS = True
+    gen_coll.CONTAINER_INVALIDATE = True
     try:
         return _generate(rng, tier, seed)
     finally:
         gen_coll.WINDOW_CLEARS = False
+        gen_coll.CONTAINER_INVALIDATE = False
 
 
 def _generate(rng, tier, seed):
@@ -136,6 +138,7 @@ def check(case, tr):
     for src in case.meta["sources"]:
         wl = dict((t, ops) for t, ops in writes.get(src["uid"], []))
         C["invalidations"] = C.get("invalidations", 0) + sum(1 for ops in wl.values() for o in ops if o.endswith("i"))
+        C["container_invalidations"] = C.get("container_invalidations", 0) + sum(1 for ops in wl.values() for o in ops if o == "I")
         streams = [dict((t, d) for t, d, _ in dumps.get(p, [])) for p in src["probes"]]
         mirror = dict((t, d) for t, d, _ in dumps.get(src["mirrors"][0], []))
         node = Node(SHAPES[src["shape"]])
